@@ -128,7 +128,7 @@ Proof.
       destruct (run_pending_L _ _ _ _ _ _ Ep) as [l1 Hrp].
       pose proof (run_pendingL_omono _ _ _ _ _ _ _ _ Hrp) as [Hm4 _].
       assert (L3 : lns_pos s3).
-      { unfold lns_pos. rewrite El3. destruct (lns s) as [|a ls]; [constructor|]. cbn [skipn]. inversion Hl; assumption. }
+      { unfold lns_pos. rewrite El3. apply Forall_skipn. exact Hl. }
       assert (L4 : lns_pos s4) by (unfold lns_pos; rewrite Hm4; exact L3).
       set (s5 := set_clock nt s4) in *.
       assert (K5 : KK s5) by (exact (K_sched cm nodes edges init s4 _ K4 (sched_set_clock nt s4))).
@@ -142,7 +142,8 @@ Proof.
           assert (Ha : (0 < sum_rates s (transitions tb))%Q).
           { destruct (Qlt_le_dec 0 (sum_rates s (transitions tb))) as [H|H]; [exact H|]. exfalso.
             assert (E0 : (sum_rates s (transitions tb) == 0)%Q) by lra. apply Qeq_bool_iff in E0. congruence. }
-          destruct (lns s) as [|l0 ls]; [congruence|]. cbn [hd]. inversion Hl as [|? ? Hl0 _]; subst.
+          pose proof Hl as Hl'. unfold lns_pos in Hl'. destruct (lns s) as [|l0 ls] eqn:Els; [congruence|]. cbn [hd].
+          inversion Hl' as [|? ? Hl0 _]; subst.
           apply Qmult_lt_0_compat; [|exact Hl0]. unfold Qdiv. rewrite Qmult_1_l. apply Qinv_lt_0_compat, Ha. }
         assert (Hnt : (t < nt)%Q) by (unfold nt; rewrite Qred_correct; lra).
         assert (T3 : tinv_st t s3) by (rewrite E3; apply (tinv_core t s); [reflexivity | exact T]).
